@@ -358,3 +358,1233 @@ Proof. intros st p n. apply summarize_contracts. Qed.
 
 Lemma contracting_choice : forall ch, contracting (summ_choice ch).
 Proof. intros ch p n. apply contract_contracts. Qed.
+
+(** * 3. Work and node counts of the uncontracted recording *)
+
+Lemma last_app_one : forall (l : list node) x d, last (l ++ [x]) d = x.
+Proof.
+  induction l as [|y l IH]; intros x d; [reflexivity|].
+  cbn [app]. destruct l as [|z l]; [reflexivity|]. apply (IH x d).
+Qed.
+
+Lemma accumulate_app_one : forall oc k l x,
+  accumulate oc k (l ++ [x]) =
+  acc_finish (acc_loop oc (acc_init k (ninfo (hd x l)) (ninfo x)) (l ++ [x])).
+Proof.
+  intros oc k l x. destruct l as [|y l]; [reflexivity|].
+  unfold accumulate. cbn [app hd].
+  change (y :: l ++ [x]) with ((y :: l) ++ [x]). rewrite last_app_one. reflexivity.
+Qed.
+
+(** what the parent reads of child x *)
+Definition child_part (f : info -> Z) (x : node) : Z :=
+  match x with NCreate _ c => f (ninfo c) | _ => 0 end.
+Definition full_t1 (x : node) : Z := i_t1 (ninfo x) + child_part i_t1 x.
+Definition full_nodes (x : node) : ncounts :=
+  nc_add (i_nodes (ninfo x)) (match x with NCreate _ c => i_nodes (ninfo c) | _ => nc_zero end).
+
+Lemma acc_step_t1 : forall oc h st x,
+  i_t1 (a_info (acc_step oc h st x)) = i_t1 (a_info st) + full_t1 x.
+Proof. intros oc h st [xi|xi c|xi ch]; unfold acc_step, full_t1, child_part; cbn; lia. Qed.
+
+Lemma acc_step_nodes : forall oc h st x,
+  i_nodes (a_info (acc_step oc h st x)) = nc_add (i_nodes (a_info st)) (full_nodes x).
+Proof.
+  intros oc h st [xi|xi c|xi ch]; unfold acc_step, full_nodes; cbn;
+    rewrite ?nc_add_zero_r, ?nc_add_assoc; reflexivity.
+Qed.
+
+Lemma acc_loop_t1 : forall oc l st,
+  i_t1 (a_info (acc_loop oc st l)) = i_t1 (a_info st) + zsum (map full_t1 l).
+Proof.
+  intros oc; induction l as [|x r IH]; intros st; cbn [acc_loop map]; [cbn; lia|].
+  rewrite IH, acc_step_t1, zsum_cons. lia.
+Qed.
+
+Lemma acc_loop_nodes : forall oc l st,
+  i_nodes (a_info (acc_loop oc st l)) = nc_add (i_nodes (a_info st)) (nc_sum (map full_nodes l)).
+Proof.
+  intros oc; induction l as [|x r IH]; intros st; cbn [acc_loop map].
+  - cbn. symmetry; apply nc_add_zero_r.
+  - rewrite IH, acc_step_nodes, nc_add_assoc. reflexivity.
+Qed.
+
+Lemma accumulate_t1 : forall oc k l x, i_t1 (accumulate oc k (l ++ [x])) = zsum (map full_t1 (l ++ [x])).
+Proof. intros. rewrite accumulate_app_one. unfold acc_finish; cbn [i_t1]. rewrite acc_loop_t1. cbn. lia. Qed.
+
+Lemma accumulate_nodes : forall oc k l x, i_nodes (accumulate oc k (l ++ [x])) = nc_sum (map full_nodes (l ++ [x])).
+Proof. intros. rewrite accumulate_app_one. unfold acc_finish; cbn [i_nodes]. rewrite acc_loop_nodes. cbn. apply nc_add_zero_l. Qed.
+
+(** well-formedness, unfolded *)
+Lemma wf_forall : forall c items, forallb (wf c) items = true -> Forall (fun x => wf c x = true) items.
+Proof. intros c items H. apply Forall_forall. intros x Hx. rewrite forallb_forall in H. apply H, Hx. Qed.
+
+Lemma wf_child_task : forall t, wf CChild t = true -> exists items e, t = Task items e.
+Proof. intros [l|l c|items w|items e] H; cbn in H; try discriminate. eauto. Qed.
+
+Lemma wf_sect_item : forall t, wf CSect t = true ->
+  (exists l, t = Other l) \/ (exists l c, t = Create l c /\ wf CChild c = true) \/
+  (exists items w, t = Sect items w /\ forallb (wf CSect) items = true).
+Proof. intros [l|l c|items w|items e] H; cbn in H; try discriminate; eauto 7. Qed.
+
+Lemma wf_task_item : forall t, wf CTask t = true ->
+  (exists l, t = Other l) \/ (exists items w, t = Sect items w /\ forallb (wf CSect) items = true).
+Proof. intros [l|l c|items w|items e] H; cbn in H; try discriminate; eauto 7. Qed.
+
+Lemma Forall_impl2 : forall (A : Type) (P Q R : A -> Prop) l,
+  (forall x, P x -> Q x -> R x) -> Forall P l -> Forall Q l -> Forall R l.
+Proof.
+  intros A P Q R l H HP. induction HP as [|x r Hx _ IH]; intros HQ; [constructor|].
+  inversion HQ; subst. constructor; [apply H; assumption|apply IH; assumption].
+Qed.
+
+Lemma map_ext_Forall : forall (A B : Type) (f g : A -> B) l, Forall (fun x => f x = g x) l -> map f l = map g l.
+Proof. intros A B f g l H; induction H as [|x r Hx _ IH]; cbn; [reflexivity|]. rewrite Hx, IH; reflexivity. Qed.
+
+(** specification side: sums over the intervals *)
+Definition lsum (l : list (nkind * leaf)) : Z := zsum (map (fun kl => llen (snd kl)) l).
+Definition lcount (k : nkind) (l : list (nkind * leaf)) : Z :=
+  Z.of_nat (length (filter (fun kl => nkind_eqb (fst kl) k) l)).
+Definition lcounts (l : list (nkind * leaf)) : ncounts :=
+  mkNC (lcount KCreate l) (lcount KWait l) (lcount KOther l) (lcount KEnd l).
+
+Lemma lsum_app : forall a b, lsum (a ++ b) = lsum a + lsum b.
+Proof. intros; unfold lsum; rewrite map_app, zsum_app; reflexivity. Qed.
+Lemma lcount_app : forall k a b, lcount k (a ++ b) = lcount k a + lcount k b.
+Proof. intros; unfold lcount; rewrite filter_app, app_length, Nat2Z.inj_add; reflexivity. Qed.
+Lemma lcounts_app : forall a b, lcounts (a ++ b) = nc_add (lcounts a) (lcounts b).
+Proof. intros; unfold lcounts, nc_add; cbn; rewrite !lcount_app; reflexivity. Qed.
+Lemma lsum_flat : forall items, lsum (flat_map leaves items) = zsum (map (fun x => lsum (leaves x)) items).
+Proof.
+  induction items as [|x r IH]; [reflexivity|]. cbn [flat_map map]. rewrite lsum_app, IH, zsum_cons. reflexivity.
+Qed.
+Lemma lcounts_flat : forall items, lcounts (flat_map leaves items) = nc_sum (map (fun x => lcounts (leaves x)) items).
+Proof.
+  induction items as [|x r IH]; [reflexivity|]. cbn [flat_map map]. rewrite lcounts_app, IH. reflexivity.
+Qed.
+
+Lemma work_lsum : forall t, work t = lsum (leaves t).
+Proof. reflexivity. Qed.
+Lemma count_kind_lcount : forall k t, count_kind k t = lcount k (leaves t).
+Proof. reflexivity. Qed.
+
+(** a created child / the root is a task, whose node carries everything in its own summary *)
+Lemma rec0_task_full_t1 : forall oc items e, full_t1 (rec0 oc (Task items e)) = i_t1 (ninfo (rec0 oc (Task items e))).
+Proof. intros; unfold full_t1, child_part; cbn [rec0]; lia. Qed.
+
+Theorem rec0_t1 : forall oc t c, wf c t = true -> full_t1 (rec0 oc t) = lsum (leaves t).
+Proof.
+  intros oc t. induction t as [l|l ch IH|items w IH|items e IH] using tree_ind'; intros c Hwf.
+  - unfold full_t1, child_part, lsum; cbn. lia.
+  - destruct c; cbn in Hwf; try discriminate.
+    destruct (wf_child_task _ Hwf) as (items & e & ->).
+    specialize (IH CChild Hwf). rewrite rec0_task_full_t1 in IH.
+    change (rec0 oc (Create l (Task items e))) with (NCreate (leaf_info KCreate l) (rec0 oc (Task items e))).
+    unfold full_t1 at 1, child_part. cbn [ninfo]. rewrite IH.
+    change (leaves (Create l (Task items e))) with ([(KCreate, l)] ++ leaves (Task items e)).
+    rewrite lsum_app. unfold lsum at 1; cbn. lia.
+  - assert (Hit : Forall (fun x => wf CSect x = true) items)
+      by (destruct c; cbn in Hwf; try discriminate; apply wf_forall; exact Hwf).
+    unfold full_t1, child_part. cbn [rec0 ninfo leaves]. rewrite accumulate_t1.
+    rewrite map_app, zsum_app, lsum_app, lsum_flat, map_map.
+    rewrite (map_ext_Forall _ _ (fun x => full_t1 (rec0 oc x)) (fun x => lsum (leaves x))).
+    + unfold full_t1, child_part, lsum; cbn. lia.
+    + eapply Forall_impl2; [|exact IH|exact Hit]. cbn. intros x H1 H2. exact (H1 _ H2).
+  - assert (Hit : Forall (fun x => wf CTask x = true) items)
+      by (destruct c; cbn in Hwf; try discriminate; apply wf_forall; exact Hwf).
+    unfold full_t1, child_part. cbn [rec0 ninfo leaves]. rewrite accumulate_t1.
+    rewrite map_app, zsum_app, lsum_app, lsum_flat, map_map.
+    rewrite (map_ext_Forall _ _ (fun x => full_t1 (rec0 oc x)) (fun x => lsum (leaves x))).
+    + unfold full_t1, child_part, lsum; cbn. lia.
+    + eapply Forall_impl2; [|exact IH|exact Hit]. cbn. intros x H1 H2. exact (H1 _ H2).
+Qed.
+
+Lemma nc_unit_lcounts : forall k l, (k = KCreate \/ k = KWait \/ k = KOther \/ k = KEnd) -> nc_unit k = lcounts [(k, l)].
+Proof. intros k l [->|[->|[->| ->]]]; reflexivity. Qed.
+
+Theorem rec0_nodes : forall oc t c, wf c t = true -> full_nodes (rec0 oc t) = lcounts (leaves t).
+Proof.
+  intros oc t. induction t as [l|l ch IH|items w IH|items e IH] using tree_ind'; intros c Hwf.
+  - reflexivity.
+  - destruct c; cbn in Hwf; try discriminate.
+    destruct (wf_child_task _ Hwf) as (items & e & ->).
+    specialize (IH CChild Hwf).
+    assert (IH' : i_nodes (ninfo (rec0 oc (Task items e))) = lcounts (leaves (Task items e))).
+    { rewrite <- IH. unfold full_nodes. cbn [rec0]. rewrite nc_add_zero_r. reflexivity. }
+    change (rec0 oc (Create l (Task items e))) with (NCreate (leaf_info KCreate l) (rec0 oc (Task items e))).
+    unfold full_nodes. cbn [ninfo]. rewrite IH'.
+    change (leaves (Create l (Task items e))) with ([(KCreate, l)] ++ leaves (Task items e)).
+    rewrite lcounts_app. reflexivity.
+  - assert (Hit : Forall (fun x => wf CSect x = true) items)
+      by (destruct c; cbn in Hwf; try discriminate; apply wf_forall; exact Hwf).
+    unfold full_nodes. cbn [rec0 ninfo leaves]. rewrite accumulate_nodes, nc_add_zero_r.
+    rewrite map_app, nc_sum_app, lcounts_app, lcounts_flat, map_map.
+    rewrite (map_ext_Forall _ _ (fun x => full_nodes (rec0 oc x)) (fun x => lcounts (leaves x))).
+    + reflexivity.
+    + eapply Forall_impl2; [|exact IH|exact Hit]. cbn. intros x H1 H2. exact (H1 _ H2).
+  - assert (Hit : Forall (fun x => wf CTask x = true) items)
+      by (destruct c; cbn in Hwf; try discriminate; apply wf_forall; exact Hwf).
+    unfold full_nodes. cbn [rec0 ninfo leaves]. rewrite accumulate_nodes, nc_add_zero_r.
+    rewrite map_app, nc_sum_app, lcounts_app, lcounts_flat, map_map.
+    rewrite (map_ext_Forall _ _ (fun x => full_nodes (rec0 oc x)) (fun x => lcounts (leaves x))).
+    + reflexivity.
+    + eapply Forall_impl2; [|exact IH|exact Hit]. cbn. intros x H1 H2. exact (H1 _ H2).
+Qed.
+
+Theorem root_work : forall oc summ, contracting summ -> forall t, well_nested t ->
+  i_t1 (root_info oc summ t) = work t.
+Proof.
+  intros oc summ Hs t Hwf.
+  destruct (info_eqc_fields _ _ (root_info_rec0 oc summ Hs t)) as (_ & _ & _ & _ & -> & _).
+  destruct (wf_child_task _ Hwf) as (items & e & ->).
+  rewrite <- rec0_task_full_t1. rewrite work_lsum. eapply rec0_t1. exact Hwf.
+Qed.
+
+Theorem root_counts : forall oc summ, contracting summ -> forall t, well_nested t ->
+  i_nodes (root_info oc summ t) =
+  mkNC (count_kind KCreate t) (count_kind KWait t) (count_kind KOther t) (count_kind KEnd t).
+Proof.
+  intros oc summ Hs t Hwf.
+  destruct (info_eqc_fields _ _ (root_info_rec0 oc summ Hs t)) as (_ & _ & _ & _ & _ & _ & -> & _).
+  destruct (wf_child_task _ Hwf) as (items & e & ->).
+  pose proof (rec0_nodes oc _ _ Hwf) as H. unfold full_nodes in H. cbn [rec0 ninfo] in H.
+  rewrite nc_add_zero_r in H. cbn [rec0 ninfo]. rewrite H. reflexivity.
+Qed.
+
+(** * 4. Logical edge counts and the edges of the explicit DAG *)
+
+Lemma ec_ext : forall a b, ec_end a = ec_end b -> ec_create a = ec_create b -> ec_ccont a = ec_ccont b ->
+  ec_wcont a = ec_wcont b -> ec_ocont a = ec_ocont b -> a = b.
+Proof. intros [] []; cbn; intros; subst; reflexivity. Qed.
+
+Ltac ec_crush :=
+  apply ec_ext; unfold ec_add, ec_zero;
+  cbn [ec_end ec_create ec_ccont ec_wcont ec_ocont]; lia.
+
+(** ** 4a. what dr_accumulate_stats adds to logical_edge_counts for child x (x has a successor) *)
+Definition edge_extra (oc : bool) (x : node) : ecounts :=
+  match x with
+  | NCreate _ c => ec_add (mkEC 0 1 1 0 0) (i_edges (ninfo c))
+  | _ => match i_kind (ninfo x) with
+         | KSection => mkEC (i_nchild (ninfo x)) 0 0 1 0
+         | KOther => if oc then mkEC 0 0 0 0 1 else ec_zero
+         | _ => ec_zero
+         end
+  end.
+Definition contrib (oc : bool) (x : node) : ecounts := ec_add (i_edges (ninfo x)) (edge_extra oc x).
+
+(** the last child of a closed section / task is its wait / end interval *)
+Definition last_ok (x : node) : Prop :=
+  match x with
+  | NCreate _ _ => True
+  | _ => i_kind (ninfo x) <> KSection /\ i_kind (ninfo x) <> KOther
+  end.
+Fixpoint ends_ok (l : list node) : Prop :=
+  match l with
+  | [] => True
+  | [x] => last_ok x
+  | _ :: r => ends_ok r
+  end.
+
+Lemma acc_step_edges : forall oc h st x, (h = true \/ last_ok x) ->
+  i_edges (a_info (acc_step oc h st x)) = ec_add (i_edges (a_info st)) (contrib oc x).
+Proof.
+  intros oc h st [xi|xi c|xi ch] Hh; unfold acc_step, contrib, edge_extra; cbn [ninfo a_info i_edges];
+    cbn [last_ok ninfo] in Hh.
+  - destruct (i_kind xi) eqn:Ek; destruct Hh as [->|[H1 H2]]; try congruence;
+      try (destruct oc); cbn [andb]; ec_crush.
+  - ec_crush.
+  - destruct (i_kind xi) eqn:Ek; destruct Hh as [->|[H1 H2]]; try congruence;
+      try (destruct oc); cbn [andb]; ec_crush.
+Qed.
+
+Lemma acc_loop_edges : forall oc l st, ends_ok l ->
+  i_edges (a_info (acc_loop oc st l)) = ec_add (i_edges (a_info st)) (ec_sum (map (contrib oc) l)).
+Proof.
+  intros oc; induction l as [|x r IH]; intros st Hok; cbn [acc_loop map].
+  - cbn. symmetry; apply ec_add_zero_r.
+  - rewrite IH.
+    + rewrite acc_step_edges.
+      * cbn [ec_sum fold_right]. fold (ec_sum (map (contrib oc) r)). apply ec_add_assoc.
+      * destruct r; [right; exact Hok|left; reflexivity].
+    + destruct r; [exact I|exact Hok].
+Qed.
+
+Lemma acc_step_nchild : forall oc h st x,
+  i_nchild (a_info (acc_step oc h st x)) = i_nchild (a_info st) + (if is_create x then 1 else 0).
+Proof. intros oc h st [xi|xi c|xi ch]; unfold acc_step; cbn; lia. Qed.
+
+Lemma n_creates_cons : forall x l, n_creates (x :: l) = (if is_create x then 1 else 0) + n_creates l.
+Proof.
+  intros x l; unfold n_creates; cbn [filter]. destruct (is_create x); [|lia].
+  cbn [length]. rewrite Nat2Z.inj_succ. lia.
+Qed.
+
+Lemma n_creates_app : forall a b, n_creates (a ++ b) = n_creates a + n_creates b.
+Proof. intros; unfold n_creates; rewrite filter_app, app_length, Nat2Z.inj_add; reflexivity. Qed.
+
+Lemma acc_loop_nchild : forall oc l st,
+  i_nchild (a_info (acc_loop oc st l)) = i_nchild (a_info st) + n_creates l.
+Proof.
+  intros oc; induction l as [|x r IH]; intros st; cbn [acc_loop]; [cbn; lia|].
+  rewrite IH, acc_step_nchild, n_creates_cons. lia.
+Qed.
+
+Lemma ends_ok_app_leaf : forall l i, i_kind i <> KSection -> i_kind i <> KOther -> ends_ok (l ++ [NLeaf i]).
+Proof.
+  induction l as [|x r IH]; intros i H1 H2; [cbn; split; assumption|].
+  cbn [app ends_ok]. destruct (r ++ [NLeaf i]) eqn:E; [destruct r; discriminate|].
+  rewrite <- E. apply IH; assumption.
+Qed.
+
+Lemma accumulate_edges : forall oc k l i, i_kind i <> KSection -> i_kind i <> KOther ->
+  i_edges (accumulate oc k (l ++ [NLeaf i])) = ec_sum (map (contrib oc) (l ++ [NLeaf i])).
+Proof.
+  intros. rewrite accumulate_app_one. unfold acc_finish; cbn [i_edges].
+  rewrite acc_loop_edges by (apply ends_ok_app_leaf; assumption). cbn. apply ec_add_zero_l.
+Qed.
+
+Lemma accumulate_nchild : forall oc k l x, i_nchild (accumulate oc k (l ++ [x])) = n_creates (l ++ [x]).
+Proof. intros. rewrite accumulate_app_one. unfold acc_finish; cbn [i_nchild]. rewrite acc_loop_nchild. cbn. lia. Qed.
+
+Lemma acc_step_kind : forall oc h st x, i_kind (a_info (acc_step oc h st x)) = i_kind (a_info st).
+Proof. intros oc h st [xi|xi c|xi ch]; unfold acc_step; reflexivity. Qed.
+
+Lemma acc_loop_kind : forall oc l st, i_kind (a_info (acc_loop oc st l)) = i_kind (a_info st).
+Proof.
+  intros oc; induction l as [|x r IH]; intros st; cbn [acc_loop]; [reflexivity|].
+  rewrite IH. apply acc_step_kind.
+Qed.
+
+Lemma accumulate_kind : forall oc k l x, i_kind (accumulate oc k (l ++ [x])) = k.
+Proof.
+  intros. rewrite accumulate_app_one. unfold acc_finish; cbn [i_kind].
+  rewrite acc_loop_kind. reflexivity.
+Qed.
+
+(** ** 4b. the same attribution read off the tree *)
+Definition is_create_t (t : tree) : bool := match t with Create _ _ => true | _ => false end.
+Definition ndc (items : list tree) : Z := Z.of_nat (length (filter is_create_t items)).
+
+Fixpoint attr (oc : bool) (t : tree) : ecounts :=
+  match t with
+  | Other _ => if oc then mkEC 0 0 0 0 1 else ec_zero
+  | Create _ c => ec_add (mkEC 0 1 1 0 0) (attr oc c)
+  | Sect items _ => ec_add (ec_sum (map (attr oc) items)) (mkEC (ndc items) 0 0 1 0)
+  | Task items _ => ec_sum (map (attr oc) items)
+  end.
+
+Lemma n_creates_rec0 : forall oc items, n_creates (map (rec0 oc) items) = ndc items.
+Proof.
+  intros oc; induction items as [|x r IH]; [reflexivity|].
+  cbn [map]. rewrite n_creates_cons, IH. unfold ndc; cbn [filter].
+  destruct x; cbn [rec0 is_create is_create_t]; try lia.
+  cbn [length]. rewrite Nat2Z.inj_succ. lia.
+Qed.
+
+Theorem rec0_contrib : forall oc t c, wf c t = true -> contrib oc (rec0 oc t) = attr oc t.
+Proof.
+  intros oc t. induction t as [l|l ch IH|items w IH|items e IH] using tree_ind'; intros c Hwf.
+  - unfold contrib, edge_extra; cbn. destruct oc; reflexivity.
+  - destruct c; cbn in Hwf; try discriminate.
+    destruct (wf_child_task _ Hwf) as (items & e & ->).
+    specialize (IH CChild Hwf).
+    assert (IH' : i_edges (ninfo (rec0 oc (Task items e))) = attr oc (Task items e)).
+    { rewrite <- IH. unfold contrib, edge_extra. cbn [rec0 ninfo]. rewrite accumulate_kind. symmetry; apply ec_add_zero_r. }
+    change (rec0 oc (Create l (Task items e))) with (NCreate (leaf_info KCreate l) (rec0 oc (Task items e))).
+    unfold contrib, edge_extra. cbn [ninfo]. rewrite IH'. cbn [attr leaf_info i_edges]. apply ec_add_zero_l.
+  - assert (Hit : Forall (fun x => wf CSect x = true) items)
+      by (destruct c; cbn in Hwf; try discriminate; apply wf_forall; exact Hwf).
+    unfold contrib, edge_extra. cbn [rec0 ninfo attr].
+    rewrite accumulate_kind, accumulate_nchild, (accumulate_edges oc KSection) by (cbn; discriminate).
+    rewrite map_app, ec_sum_app, map_map, n_creates_app, n_creates_rec0.
+    rewrite (map_ext_Forall _ _ (fun x => contrib oc (rec0 oc x)) (attr oc)).
+    + unfold contrib at 1, edge_extra. cbn. rewrite !ec_add_zero_r.
+      f_equal. f_equal. unfold n_creates; cbn. lia.
+    + eapply Forall_impl2; [|exact IH|exact Hit]. cbn. intros x H1 H2. exact (H1 _ H2).
+  - assert (Hit : Forall (fun x => wf CTask x = true) items)
+      by (destruct c; cbn in Hwf; try discriminate; apply wf_forall; exact Hwf).
+    unfold contrib, edge_extra. cbn [rec0 ninfo attr].
+    rewrite accumulate_kind, (accumulate_edges oc KTask) by (cbn; discriminate).
+    rewrite map_app, ec_sum_app, map_map.
+    rewrite (map_ext_Forall _ _ (fun x => contrib oc (rec0 oc x)) (attr oc)).
+    + unfold contrib at 1, edge_extra. cbn. rewrite !ec_add_zero_r. reflexivity.
+    + eapply Forall_impl2; [|exact IH|exact Hit]. cbn. intros x H1 H2. exact (H1 _ H2).
+Qed.
+
+(** ** 4c. the attribution in terms of the numbers of intervals *)
+Lemma ec_sum_proj : forall l,
+  ec_end (ec_sum l) = zsum (map ec_end l) /\ ec_create (ec_sum l) = zsum (map ec_create l) /\
+  ec_ccont (ec_sum l) = zsum (map ec_ccont l) /\ ec_wcont (ec_sum l) = zsum (map ec_wcont l) /\
+  ec_ocont (ec_sum l) = zsum (map ec_ocont l).
+Proof.
+  induction l as [|x r IH]; [cbn; repeat split|].
+  destruct IH as (I1 & I2 & I3 & I4 & I5).
+  cbn [ec_sum fold_right map]. fold (ec_sum r). rewrite !zsum_cons.
+  unfold ec_add; cbn [ec_end ec_create ec_ccont ec_wcont ec_ocont].
+  rewrite I1, I2, I3, I4, I5. repeat split.
+Qed.
+
+Definition pend_end (t : tree) : Z := if is_create_t t then 1 else 0.
+
+Lemma ndc_pend : forall items, ndc items = zsum (map pend_end items).
+Proof.
+  induction items as [|x r IH]; [reflexivity|].
+  cbn [map]. rewrite zsum_cons, <- IH. unfold ndc, pend_end; cbn [filter].
+  destruct (is_create_t x); cbn [length]; [rewrite Nat2Z.inj_succ|]; lia.
+Qed.
+
+Lemma lcount_flat : forall k items, lcount k (flat_map leaves items) = zsum (map (fun x => lcount k (leaves x)) items).
+Proof.
+  intros k; induction items as [|x r IH]; [reflexivity|]. cbn [flat_map map]. rewrite lcount_app, IH, zsum_cons. reflexivity.
+Qed.
+
+Lemma zsum_map_add : forall (A : Type) (f g : A -> Z) l, zsum (map (fun x => f x + g x) l) = zsum (map f l) + zsum (map g l).
+Proof. intros A f g; induction l as [|x r IH]; [reflexivity|]. cbn [map]. rewrite !zsum_cons, IH. lia. Qed.
+
+Definition attr_spec (oc : bool) (t : tree) : Prop :=
+  ec_end (attr oc t) + pend_end t = lcount KCreate (leaves t) /\
+  ec_create (attr oc t) = lcount KCreate (leaves t) /\
+  ec_ccont (attr oc t) = lcount KCreate (leaves t) /\
+  ec_wcont (attr oc t) = lcount KWait (leaves t) /\
+  ec_ocont (attr oc t) = (if oc then lcount KOther (leaves t) else 0).
+
+Lemma attr_spec_items : forall oc items, Forall (attr_spec oc) items ->
+  zsum (map (fun x => ec_end (attr oc x)) items) + zsum (map pend_end items) = lcount KCreate (flat_map leaves items) /\
+  zsum (map (fun x => ec_create (attr oc x)) items) = lcount KCreate (flat_map leaves items) /\
+  zsum (map (fun x => ec_ccont (attr oc x)) items) = lcount KCreate (flat_map leaves items) /\
+  zsum (map (fun x => ec_wcont (attr oc x)) items) = lcount KWait (flat_map leaves items) /\
+  zsum (map (fun x => ec_ocont (attr oc x)) items) = (if oc then lcount KOther (flat_map leaves items) else 0).
+Proof.
+  intros oc items H. induction H as [|x r Hx _ IH].
+  - cbn. destruct oc; repeat split.
+  - destruct Hx as (H1 & H2 & H3 & H4 & H5). destruct IH as (I1 & I2 & I3 & I4 & I5).
+    cbn [map flat_map]. rewrite !zsum_cons, !lcount_app.
+    repeat split; try lia. destruct oc; lia.
+Qed.
+
+Theorem attr_counts : forall oc t c, wf c t = true -> attr_spec oc t.
+Proof.
+  intros oc t. induction t as [l|l ch IH|items w IH|items e IH] using tree_ind'; intros c Hwf.
+  - unfold attr_spec, pend_end; cbn. destruct oc; cbn; repeat split.
+  - destruct c; cbn in Hwf; try discriminate.
+    destruct (wf_child_task _ Hwf) as (items & e & ->).
+    destruct (IH CChild Hwf) as (H1 & H2 & H3 & H4 & H5).
+    unfold pend_end in H1; cbn [is_create_t] in H1.
+    remember (Task items e) as tk eqn:Etk.
+    unfold attr_spec, pend_end. cbn [attr is_create_t].
+    change (leaves (Create l tk)) with ([(KCreate, l)] ++ leaves tk).
+    rewrite !lcount_app. unfold ec_add; cbn [ec_end ec_create ec_ccont ec_wcont ec_ocont].
+    change (lcount KCreate [(KCreate, l)]) with 1. change (lcount KWait [(KCreate, l)]) with 0.
+    change (lcount KOther [(KCreate, l)]) with 0.
+    repeat split; try lia. destruct oc; lia.
+  - assert (Hit : Forall (fun x => wf CSect x = true) items)
+      by (destruct c; cbn in Hwf; try discriminate; apply wf_forall; exact Hwf).
+    assert (Hsp : Forall (attr_spec oc) items).
+    { eapply Forall_impl2; [|exact IH|exact Hit]. cbn. intros x H1 H2. exact (H1 _ H2). }
+    destruct (attr_spec_items _ _ Hsp) as (I1 & I2 & I3 & I4 & I5).
+    unfold attr_spec, pend_end. cbn [attr is_create_t leaves].
+    destruct (ec_sum_proj (map (attr oc) items)) as (P1 & P2 & P3 & P4 & P5).
+    rewrite !map_map in *.
+    rewrite !lcount_app. unfold ec_add; cbn [ec_end ec_create ec_ccont ec_wcont ec_ocont].
+    rewrite P1, P2, P3, P4, P5, ndc_pend.
+    change (lcount KCreate [(KWait, w)]) with 0. change (lcount KWait [(KWait, w)]) with 1.
+    change (lcount KOther [(KWait, w)]) with 0.
+    repeat split; try lia. destruct oc; lia.
+  - assert (Hit : Forall (fun x => wf CTask x = true) items)
+      by (destruct c; cbn in Hwf; try discriminate; apply wf_forall; exact Hwf).
+    assert (Hsp : Forall (attr_spec oc) items).
+    { eapply Forall_impl2; [|exact IH|exact Hit]. cbn. intros x H1 H2. exact (H1 _ H2). }
+    destruct (attr_spec_items _ _ Hsp) as (I1 & I2 & I3 & I4 & I5).
+    assert (Hnp : zsum (map pend_end items) = 0).
+    { clear - Hit. induction Hit as [|x r Hx _ IHr]; [reflexivity|].
+      cbn [map]. rewrite zsum_cons, IHr.
+      destruct (wf_task_item _ Hx) as [(l & ->)|(it & w & -> & _)]; reflexivity. }
+    unfold attr_spec, pend_end. cbn [attr is_create_t leaves].
+    destruct (ec_sum_proj (map (attr oc) items)) as (P1 & P2 & P3 & P4 & P5).
+    rewrite !map_map in *.
+    rewrite !lcount_app. rewrite P1, P2, P3, P4, P5.
+    change (lcount KCreate [(KEnd, e)]) with 0. change (lcount KWait [(KEnd, e)]) with 0.
+    change (lcount KOther [(KEnd, e)]) with 0.
+    repeat split; try lia. destruct oc; lia.
+Qed.
+
+(** ** 4d. the explicit DAG: every edge produced by an interval is consumed exactly once *)
+Definition cnt (k : ekind) (l : list pred) : Z :=
+  Z.of_nat (length (filter (fun p : pred => ekind_eqb (snd p) k) l)).
+
+Lemma cnt_app : forall k a b, cnt k (a ++ b) = cnt k a + cnt k b.
+Proof. intros; unfold cnt; rewrite filter_app, app_length, Nat2Z.inj_add; reflexivity. Qed.
+Lemma cnt_nil : forall k, cnt k [] = 0.
+Proof. reflexivity. Qed.
+Lemma cnt_cons : forall k p l, cnt k (p :: l) = (if ekind_eqb (snd p) k then 1 else 0) + cnt k l.
+Proof.
+  intros; unfold cnt; cbn [filter]. destruct (ekind_eqb (snd p) k); [|lia].
+  cbn [length]. rewrite Nat2Z.inj_succ. lia.
+Qed.
+
+Definition rows_cnt (k : ekind) (rows : list row) : Z := cnt k (flat_map r_preds rows).
+Lemma rows_cnt_app : forall k a b, rows_cnt k (a ++ b) = rows_cnt k a + rows_cnt k b.
+Proof. intros; unfold rows_cnt; rewrite flat_map_app, cnt_app; reflexivity. Qed.
+Lemma rows_cnt_one : forall k r, rows_cnt k [r] = cnt k (r_preds r).
+Proof. intros; unfold rows_cnt; cbn. rewrite app_nil_r. reflexivity. Qed.
+Lemma rows_cnt_cons : forall k r l, rows_cnt k (r :: l) = cnt k (r_preds r) + rows_cnt k l.
+Proof. intros; unfold rows_cnt; cbn [flat_map]. rewrite cnt_app. reflexivity. Qed.
+Lemma edge_count_rows_cnt : forall k rows, edge_count k rows = rows_cnt k rows.
+Proof. reflexivity. Qed.
+
+(** number of edges of kind k that leave the intervals of a list *)
+Definition gen (k : ekind) (l : list (nkind * leaf)) : Z :=
+  match k with
+  | EEnd => lcount KEnd l
+  | ECreate | ECreateCont => lcount KCreate l
+  | EWaitCont => lcount KWait l
+  | EOtherCont => lcount KOther l
+  end.
+Lemma gen_app : forall k a b, gen k (a ++ b) = gen k a + gen k b.
+Proof. intros [] a b; cbn [gen]; apply lcount_app. Qed.
+
+Definition conserved (k : ekind) (t : tree) : Prop :=
+  forall o ins, let r := dag t o ins in
+    rows_cnt k (d_rows r) + cnt k (d_outs r) + cnt k (d_pend r) = cnt k ins + gen k (leaves t).
+
+Lemma dag_items_conserved : forall k items, Forall (conserved k) items ->
+  forall o ins, let r := dag_items dag items o ins in
+    rows_cnt k (d_rows r) + cnt k (d_outs r) + cnt k (d_pend r) = cnt k ins + gen k (flat_map leaves items).
+Proof.
+  intros k items H. induction H as [|x r Hx _ IH]; intros o ins; cbn zeta.
+  - cbn [dag_items flat_map d_rows d_outs d_pend]. unfold rows_cnt; cbn [flat_map].
+    rewrite !cnt_nil. destruct k; cbn [gen]; change (lcount _ []) with 0; lia.
+  - cbn [dag_items flat_map d_rows d_outs d_pend].
+    specialize (Hx o ins). cbn zeta in Hx.
+    specialize (IH (o + length (d_rows (dag x o ins)))%nat (d_outs (dag x o ins))). cbn zeta in IH.
+    rewrite rows_cnt_app, cnt_app, gen_app. lia.
+Qed.
+
+Ltac kcase k :=
+  destruct k; cbn [ekind_eqb gen snd] in *; unfold lcount in *;
+  cbn [filter nkind_eqb fst length] in *; lia.
+
+Theorem dag_conserved : forall k t, conserved k t.
+Proof.
+  intros k t. induction t as [l|l c IH|items w IH|items e IH] using tree_ind'; intros o ins; cbn zeta.
+  - cbn [dag d_rows d_outs d_pend leaves]. rewrite rows_cnt_one, cnt_cons, !cnt_nil. cbn [r_preds snd].
+    kcase k.
+  - cbn [dag d_rows d_outs d_pend].
+    specialize (IH (S o) [(o, ECreate)]). cbn zeta in IH.
+    change (leaves (Create l c)) with ([(KCreate, l)] ++ leaves c).
+    rewrite rows_cnt_cons, cnt_app, gen_app, cnt_cons, cnt_nil. cbn [r_preds snd].
+    rewrite cnt_cons, cnt_nil in IH. cbn [snd] in IH.
+    kcase k.
+  - cbn [dag d_rows d_outs d_pend leaves].
+    pose proof (dag_items_conserved k items IH o ins) as H. cbn zeta in H.
+    rewrite rows_cnt_app, rows_cnt_one, cnt_cons, gen_app, cnt_nil. cbn [r_preds snd].
+    kcase k.
+  - cbn [dag d_rows d_outs d_pend leaves].
+    pose proof (dag_items_conserved k items IH o ins) as H. cbn zeta in H.
+    rewrite rows_cnt_app, rows_cnt_one, cnt_cons, gen_app, cnt_nil. cbn [r_preds snd].
+    kcase k.
+Qed.
+
+(** a well-nested task leaves exactly one edge dangling: the end edge of its last interval *)
+Lemma dag_items_pend_nil : forall items, Forall (fun x => wf CTask x = true) items ->
+  forall o ins, d_pend (dag_items dag items o ins) = [].
+Proof.
+  intros items H. induction H as [|x r Hx _ IH]; intros o ins; [reflexivity|].
+  cbn [dag_items d_pend]. rewrite IH.
+  destruct (wf_task_item _ Hx) as [(l & ->)|(it & w & -> & _)]; reflexivity.
+Qed.
+
+Lemma dag_task_outs : forall t, wf CChild t = true -> forall o ins,
+  d_pend (dag t o ins) = [] /\ exists v, d_outs (dag t o ins) = [(v, EEnd)].
+Proof.
+  intros t Hwf o ins. destruct (wf_child_task _ Hwf) as (items & e & ->).
+  cbn in Hwf. cbn [dag d_pend d_outs]. split; [|eauto].
+  apply dag_items_pend_nil, wf_forall, Hwf.
+Qed.
+
+(** numbers of end and create intervals *)
+Lemma ends_creates : forall t c, wf c t = true ->
+  lcount KEnd (leaves t) = lcount KCreate (leaves t) + (match t with Task _ _ => 1 | _ => 0 end).
+Proof.
+  induction t as [l|l ch IH|items w IH|items e IH] using tree_ind'; intros c Hwf.
+  - reflexivity.
+  - destruct c; cbn in Hwf; try discriminate.
+    destruct (wf_child_task _ Hwf) as (items & e & ->).
+    specialize (IH CChild Hwf). cbn match in IH.
+    change (leaves (Create l (Task items e))) with ([(KCreate, l)] ++ leaves (Task items e)).
+    rewrite !lcount_app, IH. change (lcount KEnd [(KCreate, l)]) with 0. change (lcount KCreate [(KCreate, l)]) with 1. lia.
+  - assert (Hit : Forall (fun x => wf CSect x = true) items)
+      by (destruct c; cbn in Hwf; try discriminate; apply wf_forall; exact Hwf).
+    cbn [leaves]. rewrite !lcount_app, !lcount_flat.
+    change (lcount KEnd [(KWait, w)]) with 0. change (lcount KCreate [(KWait, w)]) with 0.
+    assert (zsum (map (fun x => lcount KEnd (leaves x)) items) = zsum (map (fun x => lcount KCreate (leaves x)) items)); [|lia].
+    f_equal. apply map_ext_Forall. eapply Forall_impl2; [|exact IH|exact Hit]. cbn. intros x H1 H2.
+    rewrite (H1 _ H2). destruct (wf_sect_item _ H2) as [(l & ->)|[(l & c' & -> & _)|(it & w' & -> & _)]]; lia.
+  - assert (Hit : Forall (fun x => wf CTask x = true) items)
+      by (destruct c; cbn in Hwf; try discriminate; apply wf_forall; exact Hwf).
+    cbn [leaves]. rewrite !lcount_app, !lcount_flat.
+    change (lcount KEnd [(KEnd, e)]) with 1. change (lcount KCreate [(KEnd, e)]) with 0.
+    assert (zsum (map (fun x => lcount KEnd (leaves x)) items) = zsum (map (fun x => lcount KCreate (leaves x)) items)); [|lia].
+    f_equal. apply map_ext_Forall. eapply Forall_impl2; [|exact IH|exact Hit]. cbn. intros x H1 H2.
+    rewrite (H1 _ H2). destruct (wf_task_item _ H2) as [(l & ->)|(it & w' & -> & _)]; lia.
+Qed.
+
+Theorem dag_edge_counts : forall t, well_nested t ->
+  edge_count EEnd (dag_of t) = count_kind KCreate t /\
+  edge_count ECreate (dag_of t) = count_kind KCreate t /\
+  edge_count ECreateCont (dag_of t) = count_kind KCreate t /\
+  edge_count EWaitCont (dag_of t) = count_kind KWait t /\
+  edge_count EOtherCont (dag_of t) = count_kind KOther t.
+Proof.
+  intros t Hwf. unfold dag_of. change edge_count with rows_cnt. rewrite !count_kind_lcount.
+  destruct (dag_task_outs t Hwf 0%nat []) as (Hp & v & Ho).
+  pose proof (ends_creates t _ Hwf) as Hec.
+  destruct (wf_child_task _ Hwf) as (items & e & Et). rewrite Et in Hec at 3.
+  repeat split.
+  - pose proof (dag_conserved EEnd t 0%nat []) as H. cbn zeta in H. rewrite Hp, Ho in H. cbn in H. cbn [gen] in *. lia.
+  - pose proof (dag_conserved ECreate t 0%nat []) as H. cbn zeta in H. rewrite Hp, Ho in H. cbn in H. lia.
+  - pose proof (dag_conserved ECreateCont t 0%nat []) as H. cbn zeta in H. rewrite Hp, Ho in H. cbn in H. lia.
+  - pose proof (dag_conserved EWaitCont t 0%nat []) as H. cbn zeta in H. rewrite Hp, Ho in H. cbn in H. lia.
+  - pose proof (dag_conserved EOtherCont t 0%nat []) as H. cbn zeta in H. rewrite Hp, Ho in H. cbn in H. lia.
+Qed.
+
+(** ** 4e. logical edge counts of the root *)
+Theorem root_edges : forall oc summ, contracting summ -> forall t, well_nested t ->
+  i_edges (root_info oc summ t) =
+  mkEC (count_kind KCreate t) (count_kind KCreate t) (count_kind KCreate t) (count_kind KWait t)
+       (if oc then count_kind KOther t else 0).
+Proof.
+  intros oc summ Hs t Hwf.
+  destruct (info_eqc_fields _ _ (root_info_rec0 oc summ Hs t)) as (_ & _ & _ & _ & _ & _ & _ & -> & _).
+  pose proof (rec0_contrib oc t _ Hwf) as Hc.
+  destruct (attr_counts oc t _ Hwf) as (H1 & H2 & H3 & H4 & H5).
+  destruct (wf_child_task _ Hwf) as (items & e & Et). subst t.
+  unfold contrib, edge_extra in Hc. cbn [rec0 ninfo] in Hc. rewrite accumulate_kind, ec_add_zero_r in Hc.
+  cbn [rec0 ninfo]. rewrite Hc. unfold pend_end in H1. cbn [is_create_t] in H1.
+  rewrite !count_kind_lcount. apply ec_ext; cbn [ec_end ec_create ec_ccont ec_wcont ec_ocont]; lia.
+Qed.
+
+(** * 5. Critical path *)
+
+(** ** 5a. the accumulation of t_inf in closed form *)
+Definition tin (x : node) : Z := i_tinf (ninfo x).
+Definition serial (l : list node) : Z := zsum (map tin l).
+(** lengths of the paths that leave the serial chain at a create_task interval and run through
+    the created task; [s] = length of the chain before the list *)
+Fixpoint pendl (s : Z) (l : list node) : list Z :=
+  match l with
+  | [] => []
+  | x :: r => (match x with NCreate _ c => [s + tin x + tin c] | _ => [] end) ++ pendl (s + tin x) r
+  end.
+
+Lemma acc_step_tinf : forall oc h st x, i_tinf (a_info (acc_step oc h st x)) = i_tinf (a_info st) + tin x.
+Proof. intros oc h st [xi|xi c|xi ch]; unfold acc_step, tin; reflexivity. Qed.
+
+Lemma acc_step_alt : forall oc h st x,
+  a_alt (acc_step oc h st x) =
+  match x with NCreate _ c => Z.max (i_tinf (a_info st) + tin x + tin c) (a_alt st) | _ => a_alt st end.
+Proof. intros oc h st [xi|xi c|xi ch]; unfold acc_step, tin; reflexivity. Qed.
+
+Lemma acc_loop_tinf : forall oc l st, i_tinf (a_info (acc_loop oc st l)) = i_tinf (a_info st) + serial l.
+Proof.
+  intros oc; induction l as [|x r IH]; intros st; cbn [acc_loop]; [unfold serial; cbn; lia|].
+  rewrite IH, acc_step_tinf. unfold serial; cbn [map]. rewrite zsum_cons. lia.
+Qed.
+
+Lemma acc_loop_alt : forall oc l st, 0 <= a_alt st ->
+  a_alt (acc_loop oc st l) = Z.max (a_alt st) (max0 (pendl (i_tinf (a_info st)) l)).
+Proof.
+  intros oc; induction l as [|x r IH]; intros st Ha; cbn [acc_loop pendl].
+  - change (max0 []) with 0. lia.
+  - rewrite IH.
+    + rewrite acc_step_alt, acc_step_tinf, max0_app.
+      destruct x as [xi|xi c|xi ch]; cbn [app]; rewrite ?max0_cons; change (max0 []) with 0;
+        match goal with |- context [max0 (pendl ?s r)] => pose proof (max0_nonneg (pendl s r)) end; lia.
+    + rewrite acc_step_alt. destruct x; lia.
+Qed.
+
+Lemma accumulate_tinf : forall oc k l x,
+  i_tinf (accumulate oc k (l ++ [x])) = Z.max (max0 (pendl 0 (l ++ [x]))) (serial (l ++ [x])).
+Proof.
+  intros. rewrite accumulate_app_one. unfold acc_finish; cbn [i_tinf].
+  rewrite acc_loop_alt by (cbn; lia). rewrite acc_loop_tinf. cbn [acc_init a_info a_alt i_tinf].
+  pose proof (max0_nonneg (pendl 0 (l ++ [x]))). lia.
+Qed.
+
+Lemma pendl_shift : forall l s, pendl s l = map (Z.add s) (pendl 0 l).
+Proof.
+  induction l as [|x r IH]; intros s; [reflexivity|].
+  cbn [pendl]. rewrite map_app, (IH (s + tin x)), (IH (0 + tin x)), map_map.
+  f_equal.
+  - destruct x; cbn [map]; try reflexivity. f_equal. lia.
+  - apply map_ext. intros z. lia.
+Qed.
+
+Lemma pendl_app : forall a b s, pendl s (a ++ b) = pendl s a ++ pendl (s + serial a) b.
+Proof.
+  induction a as [|x r IH]; intros b s.
+  - cbn. unfold serial; cbn. f_equal. lia.
+  - cbn [app pendl]. rewrite IH, app_assoc. f_equal. f_equal.
+    unfold serial; cbn [map]. rewrite zsum_cons. lia.
+Qed.
+
+Lemma serial_app : forall a b, serial (a ++ b) = serial a + serial b.
+Proof. intros; unfold serial; rewrite map_app, zsum_app; reflexivity. Qed.
+
+Lemma max0_shift : forall L b s, 0 <= b -> 0 <= s ->
+  Z.max (b + s) (max0 (map (Z.add b) L)) = b + Z.max s (max0 L).
+Proof.
+  induction L as [|z r IH]; intros b s Hb Hs.
+  - cbn. lia.
+  - cbn [map]. rewrite !max0_cons. specialize (IH b s Hb Hs). lia.
+Qed.
+
+(** critical path of the subgraph recorded for a tree *)
+Definition Ti (oc : bool) (t : tree) : Z := tin (rec0 oc t).
+Definition Hm (oc : bool) (t : tree) : Z :=
+  match t with Create l c => llen l + Ti oc c | _ => Ti oc t end.
+
+Definition nonnegl (l : list (nkind * leaf)) : Prop := Forall (fun kl => 0 <= llen (snd kl)) l.
+
+Lemma Ti_nonneg : forall oc t, nonnegl (leaves t) -> 0 <= Ti oc t.
+Proof.
+  intros oc [l|l c|items w|items e] H; unfold Ti, tin; cbn [rec0 ninfo].
+  - inversion H; subst. cbn in *. assumption.
+  - inversion H; subst. cbn in *. assumption.
+  - rewrite accumulate_tinf. pose proof (max0_nonneg (pendl 0 (map (rec0 oc) items ++ [NLeaf (leaf_info KWait w)]))). lia.
+  - rewrite accumulate_tinf. pose proof (max0_nonneg (pendl 0 (map (rec0 oc) items ++ [NLeaf (leaf_info KEnd e)]))). lia.
+Qed.
+
+Lemma nonnegl_app : forall a b, nonnegl (a ++ b) <-> nonnegl a /\ nonnegl b.
+Proof. intros; unfold nonnegl; apply Forall_app. Qed.
+
+Lemma nonnegl_flat : forall items, nonnegl (flat_map leaves items) -> Forall (fun x => nonnegl (leaves x)) items.
+Proof.
+  induction items as [|x r IH]; intros H; [constructor|].
+  cbn [flat_map] in H. apply nonnegl_app in H. destruct H as [H1 H2]. constructor; [exact H1|apply IH, H2].
+Qed.
+
+(** ** 5b. t_inf never exceeds t_1 *)
+Definition tin_ok (x : node) : Prop :=
+  0 <= tin x /\ tin x + child_part i_tinf x <= full_t1 x /\ 0 <= child_part i_tinf x.
+
+Lemma pendl_le : forall l s, Forall tin_ok l ->
+  (forall z, In z (pendl s l) -> z <= s + zsum (map full_t1 l)) /\ serial l <= zsum (map full_t1 l) /\ 0 <= serial l.
+Proof.
+  induction l as [|x r IH]; intros s H.
+  - unfold serial; cbn. split; [intros z []|lia].
+  - inversion H as [|? ? Hx Hr]; subst. destruct Hx as (H0 & H1 & H2).
+    destruct (IH (s + tin x) Hr) as (I1 & I2 & I3).
+    cbn [pendl map]. rewrite zsum_cons. unfold serial in *; cbn [map]. rewrite zsum_cons.
+    repeat split; try lia.
+    intros z Hz. apply in_app_or in Hz. destruct Hz as [Hz|Hz].
+    + destruct x as [xi|xi c|xi ch]; cbn in Hz; try contradiction. destruct Hz as [<-|[]].
+      unfold child_part in H1, H2. unfold tin in *. lia.
+    + specialize (I1 _ Hz). unfold full_t1, child_part in *. lia.
+Qed.
+
+Theorem rec0_tinf_le : forall oc t c, wf c t = true -> nonnegl (leaves t) -> tin_ok (rec0 oc t).
+Proof.
+  intros oc t. induction t as [l|l ch IH|items w IH|items e IH] using tree_ind'; intros c Hwf Hnn.
+  - inversion Hnn; subst. unfold tin_ok, tin, full_t1, child_part; cbn in *. lia.
+  - destruct c; cbn in Hwf; try discriminate.
+    change (leaves (Create l ch)) with ([(KCreate, l)] ++ leaves ch) in Hnn.
+    apply nonnegl_app in Hnn. destruct Hnn as [Hl Hc]. inversion Hl; subst. cbn in *.
+    destruct (IH CChild Hwf Hc) as (I0 & I1 & I2).
+    destruct (wf_child_task _ Hwf) as (items & e & ->).
+    unfold tin_ok, tin, full_t1, child_part in *. cbn [rec0 ninfo leaf_info i_tinf i_t1] in *. lia.
+  - assert (Hit : Forall (fun x => wf CSect x = true) items)
+      by (destruct c; cbn in Hwf; try discriminate; apply wf_forall; exact Hwf).
+    cbn [leaves] in Hnn. apply nonnegl_app in Hnn. destruct Hnn as [Hi Hw].
+    apply nonnegl_flat in Hi. inversion Hw; subst. cbn in *.
+    assert (Hok : Forall tin_ok (map (rec0 oc) items ++ [NLeaf (leaf_info KWait w)])).
+    { apply Forall_app. split.
+      - apply Forall_map. eapply Forall_impl2; [|exact IH|]. 2:{ eapply Forall_impl2; [|exact Hit|exact Hi]. intros x A B. exact (conj A B). }
+        cbn. intros x A [B C]. exact (A _ B C).
+      - constructor; [|constructor]. unfold tin_ok, tin, full_t1, child_part; cbn. lia. }
+    destruct (pendl_le _ 0 Hok) as (P1 & P2 & P3).
+    unfold tin_ok, tin, full_t1, child_part. cbn [rec0 ninfo]. rewrite accumulate_tinf, accumulate_t1.
+    pose proof (max0_nonneg (pendl 0 (map (rec0 oc) items ++ [NLeaf (leaf_info KWait w)]))) as Hm0.
+    assert (max0 (pendl 0 (map (rec0 oc) items ++ [NLeaf (leaf_info KWait w)])) <=
+            zsum (map full_t1 (map (rec0 oc) items ++ [NLeaf (leaf_info KWait w)]))).
+    { apply max0_le; [lia|]. intros z Hz. specialize (P1 _ Hz). lia. }
+    lia.
+  - assert (Hit : Forall (fun x => wf CTask x = true) items)
+      by (destruct c; cbn in Hwf; try discriminate; apply wf_forall; exact Hwf).
+    cbn [leaves] in Hnn. apply nonnegl_app in Hnn. destruct Hnn as [Hi Hw].
+    apply nonnegl_flat in Hi. inversion Hw; subst. cbn in *.
+    assert (Hok : Forall tin_ok (map (rec0 oc) items ++ [NLeaf (leaf_info KEnd e)])).
+    { apply Forall_app. split.
+      - apply Forall_map. eapply Forall_impl2; [|exact IH|]. 2:{ eapply Forall_impl2; [|exact Hit|exact Hi]. intros x A B. exact (conj A B). }
+        cbn. intros x A [B C]. exact (A _ B C).
+      - constructor; [|constructor]. unfold tin_ok, tin, full_t1, child_part; cbn. lia. }
+    destruct (pendl_le _ 0 Hok) as (P1 & P2 & P3).
+    unfold tin_ok, tin, full_t1, child_part. cbn [rec0 ninfo]. rewrite accumulate_tinf, accumulate_t1.
+    pose proof (max0_nonneg (pendl 0 (map (rec0 oc) items ++ [NLeaf (leaf_info KEnd e)]))) as Hm0.
+    assert (max0 (pendl 0 (map (rec0 oc) items ++ [NLeaf (leaf_info KEnd e)])) <=
+            zsum (map full_t1 (map (rec0 oc) items ++ [NLeaf (leaf_info KEnd e)]))).
+    { apply max0_le; [lia|]. intros z Hz. specialize (P1 _ Hz). lia. }
+    lia.
+Qed.
+
+Theorem root_tinf_le_work : forall oc summ, contracting summ -> forall t, well_nested t -> nonneg t ->
+  0 <= i_tinf (root_info oc summ t) <= i_t1 (root_info oc summ t).
+Proof.
+  intros oc summ Hs t Hwf Hnn.
+  destruct (info_eqc_fields _ _ (root_info_rec0 oc summ Hs t)) as (_ & _ & _ & _ & -> & -> & _).
+  destruct (rec0_tinf_le oc t _ Hwf Hnn) as (H0 & H1 & H2).
+  destruct (wf_child_task _ Hwf) as (items & e & ->).
+  unfold tin, full_t1, child_part in *. cbn [rec0 ninfo] in *. lia.
+Qed.
+
+(** ** 5c. [dp] computes the weight of the heaviest path ending at each node (any DAG given by
+    predecessor lists in a topological numbering) *)
+Lemma dp_app : forall r1 r2 acc, dp acc (r1 ++ r2) = dp (dp acc r1) r2.
+Proof. induction r1 as [|r r1 IH]; intros r2 acc; [reflexivity|]. cbn [app dp]. apply IH. Qed.
+
+Lemma look_app_l : forall l1 l2 p, (fst p < length l1)%nat -> look (l1 ++ l2) p = look l1 p.
+Proof. intros l1 l2 p H. unfold look. apply app_nth1. exact H. Qed.
+
+Lemma map_look_app_l : forall l1 l2 ps, (forall p, In p ps -> (fst p < length l1)%nat) ->
+  map (look (l1 ++ l2)) ps = map (look l1) ps.
+Proof. intros l1 l2 ps H. apply map_ext_in. intros p Hp. apply look_app_l, H, Hp. Qed.
+
+Definition topo (o : nat) (rows : list row) : Prop :=
+  forall j r, nth_error rows j = Some r -> forall p, In p (r_preds r) -> (fst p < o + j)%nat.
+
+Lemma topo_cons_inv : forall o r rs, topo o (r :: rs) ->
+  (forall p, In p (r_preds r) -> (fst p < o)%nat) /\ topo (S o) rs.
+Proof.
+  intros o r rs H. split.
+  - intros p Hp. specialize (H 0%nat r eq_refl p Hp). lia.
+  - intros j r' Hj p Hp. specialize (H (S j) r' Hj p Hp). lia.
+Qed.
+
+Lemma topo_app : forall o a b, topo o a -> topo (o + length a) b -> topo o (a ++ b).
+Proof.
+  intros o a b Ha Hb j r Hj p Hp.
+  destruct (Nat.lt_ge_cases j (length a)) as [Hlt|Hge].
+  - rewrite nth_error_app1 in Hj by exact Hlt. exact (Ha j r Hj p Hp).
+  - rewrite nth_error_app2 in Hj by exact Hge. specialize (Hb _ r Hj p Hp). lia.
+Qed.
+
+Lemma topo_one : forall o r, (forall p, In p (r_preds r) -> (fst p < o)%nat) -> topo o [r].
+Proof.
+  intros o r H j r' Hj p Hp. destruct j as [|j].
+  - cbn in Hj. inversion Hj; subst. specialize (H p Hp). lia.
+  - cbn in Hj. destruct j; discriminate.
+Qed.
+
+Lemma topo_cons : forall o r rs, (forall p, In p (r_preds r) -> (fst p < o)%nat) -> topo (S o) rs -> topo o (r :: rs).
+Proof.
+  intros o r rs H Hr. change (r :: rs) with ([r] ++ rs). apply topo_app; [apply topo_one; exact H|].
+  cbn [length]. replace (o + 1)%nat with (S o) by lia. exact Hr.
+Qed.
+
+Lemma dp_spec : forall rows acc, topo (length acc) rows ->
+  exists vals, dp acc rows = acc ++ vals /\ length vals = length rows /\
+    forall j r, nth_error rows j = Some r ->
+      nth (length acc + j) (acc ++ vals) 0 =
+      llen (r_leaf r) + max0 (map (look (acc ++ vals)) (r_preds r)).
+Proof.
+  induction rows as [|r0 rs IH]; intros acc Ht.
+  - exists []. rewrite app_nil_r. repeat split. intros j r Hj. destruct j; discriminate.
+  - destruct (topo_cons_inv _ _ _ Ht) as [H0 Hrs].
+    cbn [dp]. set (v := llen (r_leaf r0) + max0 (map (look acc) (r_preds r0))).
+    destruct (IH (acc ++ [v])) as (vals & Hdp & Hlen & Hrec).
+    { rewrite app_length; cbn [length]. replace (length acc + 1)%nat with (S (length acc)) by lia. exact Hrs. }
+    exists (v :: vals). rewrite Hdp, <- app_assoc. cbn [app]. repeat split; [cbn [length]; lia|].
+    intros j r Hj. destruct j as [|j].
+    + cbn in Hj. inversion Hj; subst r. rewrite Nat.add_0_r.
+      rewrite app_nth2 by lia. rewrite Nat.sub_diag. cbn [nth].
+      rewrite map_look_app_l by exact H0. reflexivity.
+    + cbn [nth_error] in Hj. specialize (Hrec j r Hj).
+      rewrite app_length in Hrec. cbn [length] in Hrec. rewrite <- app_assoc in Hrec. cbn [app] in Hrec.
+      replace (length acc + S j)%nat with (length acc + 1 + j)%nat by lia. exact Hrec.
+Qed.
+
+Section Paths.
+  Variable rows : list row.
+  Hypothesis Htopo : topo 0 rows.
+  Let ds := dp [] rows.
+  Let D (v : nat) := nth v ds 0.
+
+  Lemma ds_spec : length ds = length rows /\
+    forall j r, nth_error rows j = Some r -> D j = llen (r_leaf r) + max0 (map (look ds) (r_preds r)).
+  Proof.
+    destruct (dp_spec rows [] Htopo) as (vals & Hdp & Hlen & Hrec). cbn [app length] in *.
+    unfold D, ds. rewrite Hdp. split; [exact Hlen|]. intros j r Hj. exact (Hrec j r Hj).
+  Qed.
+
+  Lemma D_ge_weight : forall v, D v >= node_weight rows v.
+  Proof.
+    intros v. unfold node_weight. destruct (nth_error rows v) as [r|] eqn:E.
+    - rewrite (proj2 ds_spec v r E). pose proof (max0_nonneg (map (look ds) (r_preds r))). lia.
+    - unfold D. rewrite nth_overflow; [lia|]. rewrite (proj1 ds_spec). apply nth_error_None, E.
+  Qed.
+
+  Lemma D_edge : forall u v, edge_in rows u v -> D u + node_weight rows v <= D v.
+  Proof.
+    intros u v (r & Hr & Hin). unfold node_weight. rewrite Hr. rewrite (proj2 ds_spec v r Hr).
+    apply in_map_iff in Hin. destruct Hin as (p & Hp & Hpin). subst u.
+    assert (look ds p <= max0 (map (look ds) (r_preds r))) by (apply max0_ge, in_map, Hpin).
+    unfold D. change (nth (fst p) ds 0) with (look ds p). lia.
+  Qed.
+
+  Lemma path_bound : forall p, is_path rows p ->
+    D (hd 0%nat p) + path_weight rows (tl p) <= D (last p 0%nat).
+  Proof.
+    intros p H. induction H as [v Hv|u v p' Hu He Hp IH].
+    - cbn. unfold path_weight; cbn. lia.
+    - cbn [hd tl]. change (last (u :: v :: p') 0%nat) with (last (v :: p') 0%nat).
+      cbn [hd tl] in IH. unfold path_weight in *. cbn [map]. rewrite zsum_cons.
+      pose proof (D_edge u v He). lia.
+  Qed.
+
+  Lemma D_le_longest : forall v, (v < length rows)%nat -> D v <= longest_path rows.
+  Proof.
+    intros v Hv. unfold longest_path. apply max0_ge. unfold D. apply nth_In.
+    fold ds. rewrite (proj1 ds_spec). exact Hv.
+  Qed.
+
+  Lemma is_path_nonempty_last : forall p, is_path rows p -> (last p 0%nat < length rows)%nat.
+  Proof.
+    intros p H. induction H as [v Hv|u v p' Hu He Hp IH]; [exact Hv|].
+    change (last (u :: v :: p') 0%nat) with (last (v :: p') 0%nat). exact IH.
+  Qed.
+
+  Theorem path_le_longest : forall p, is_path rows p -> path_weight rows p <= longest_path rows.
+  Proof.
+    intros p H. pose proof (path_bound p H) as Hb. pose proof (is_path_nonempty_last p H) as Hl.
+    pose proof (D_le_longest _ Hl).
+    destruct H as [v Hv|u v p' Hu He Hp]; cbn [hd tl] in Hb; unfold path_weight in *; cbn [map] in *;
+      rewrite ?zsum_cons in *.
+    - pose proof (D_ge_weight v). cbn in *. lia.
+    - pose proof (D_ge_weight u). lia.
+  Qed.
+
+  Lemma is_path_snoc : forall p v, is_path rows p -> edge_in rows (last p 0%nat) v -> (v < length rows)%nat ->
+    is_path rows (p ++ [v]).
+  Proof.
+    intros p v H. induction H as [u Hu|u w p' Hu He Hp IH]; intros Hev Hv.
+    - cbn in Hev. cbn. apply path_cons; [exact Hu|exact Hev|apply path_one; exact Hv].
+    - change (last (u :: w :: p') 0%nat) with (last (w :: p') 0%nat) in Hev.
+      cbn [app]. apply path_cons; [exact Hu|exact He|]. apply IH; assumption.
+  Qed.
+
+  Lemma path_weight_snoc : forall p v, path_weight rows (p ++ [v]) = path_weight rows p + node_weight rows v.
+  Proof. intros. unfold path_weight. rewrite map_app, zsum_app. cbn. lia. Qed.
+
+  Lemma last_snoc : forall (p : list nat) v d, last (p ++ [v]) d = v.
+  Proof.
+    induction p as [|y p IH]; intros v d; [reflexivity|].
+    cbn [app]. destruct p as [|z p]; [reflexivity|]. apply (IH v d).
+  Qed.
+
+  Theorem D_attained : forall n v, (v < n)%nat -> (v < length rows)%nat ->
+    exists p, is_path rows p /\ last p 0%nat = v /\ path_weight rows p = D v.
+  Proof.
+    induction n as [|n IH]; intros v Hvn Hv; [lia|].
+    destruct (nth_error rows v) as [r|] eqn:Er; [|apply nth_error_None in Er; lia].
+    pose proof (proj2 ds_spec v r Er) as HD.
+    destruct (max0_attained (map (look ds) (r_preds r))) as [Hz|Hin].
+    - exists [v]. split; [apply path_one; exact Hv|]. split; [reflexivity|].
+      unfold path_weight; cbn. unfold node_weight. rewrite Er, HD, Hz. lia.
+    - apply in_map_iff in Hin. destruct Hin as (pr & Hpr & Hprin).
+      pose proof (Htopo v r Er pr Hprin) as Hlt. cbn in Hlt.
+      destruct (IH (fst pr)) as (q & Hq & Hql & Hqw); [lia|lia|].
+      exists (q ++ [v]). split; [|split].
+      + apply is_path_snoc; [exact Hq| |exact Hv]. rewrite Hql. exists r. split; [exact Er|].
+        apply in_map. exact Hprin.
+      + apply last_snoc.
+      + rewrite path_weight_snoc, Hqw. unfold node_weight. rewrite Er, HD, <- Hpr. unfold D, look. lia.
+  Qed.
+
+  Theorem longest_attained : rows <> [] -> (forall v, 0 <= node_weight rows v) ->
+    exists p, is_path rows p /\ path_weight rows p = longest_path rows.
+  Proof.
+    intros Hne Hw. unfold longest_path. fold ds.
+    assert (H0 : (0 < length rows)%nat) by (destruct rows; [congruence|cbn; lia]).
+    destruct (max0_attained ds) as [Hz|Hin].
+    - destruct (D_attained 1 0%nat) as (p & Hp & _ & Hpw); [lia|exact H0|].
+      exists p. split; [exact Hp|]. rewrite Hpw, Hz.
+      pose proof (D_ge_weight 0%nat). pose proof (Hw 0%nat).
+      assert (D 0%nat <= max0 ds) by (apply max0_ge; unfold D; apply nth_In; rewrite (proj1 ds_spec); exact H0).
+      lia.
+    - destruct (In_nth _ _ 0 Hin) as (v & Hv & Hnv). rewrite (proj1 ds_spec) in Hv.
+      destruct (D_attained (S v) v) as (p & Hp & _ & Hpw); [lia|exact Hv|].
+      exists p. split; [exact Hp|]. rewrite Hpw. unfold D. exact Hnv.
+  Qed.
+End Paths.
+
+(** ** 5d. the numbering of the explicit DAG is topological *)
+Definition ids_below (n : nat) (ps : list pred) : Prop := forall p, In p ps -> (fst p < n)%nat.
+
+Lemma ids_below_app : forall n a b, ids_below n (a ++ b) <-> ids_below n a /\ ids_below n b.
+Proof.
+  intros n a b; unfold ids_below; split.
+  - intros H; split; intros p Hp; apply H, in_or_app; [left|right]; exact Hp.
+  - intros [Ha Hb] p Hp. apply in_app_or in Hp. destruct Hp; [apply Ha|apply Hb]; assumption.
+Qed.
+Lemma ids_below_mono : forall n m ps, (n <= m)%nat -> ids_below n ps -> ids_below m ps.
+Proof. intros n m ps H Hp p Hin. specialize (Hp p Hin). lia. Qed.
+Lemma ids_below_one : forall n v k, (v < n)%nat -> ids_below n [(v, k)].
+Proof. intros n v k H p [<-|[]]. exact H. Qed.
+
+Definition dag_topo_at (t : tree) : Prop :=
+  forall o ins, ids_below o ins ->
+    topo o (d_rows (dag t o ins)) /\
+    ids_below (o + length (d_rows (dag t o ins))) (d_outs (dag t o ins) ++ d_pend (dag t o ins)).
+
+Lemma dag_items_topo : forall items, Forall dag_topo_at items ->
+  forall o ins, ids_below o ins ->
+    topo o (d_rows (dag_items dag items o ins)) /\
+    ids_below (o + length (d_rows (dag_items dag items o ins)))
+              (d_outs (dag_items dag items o ins) ++ d_pend (dag_items dag items o ins)).
+Proof.
+  intros items H. induction H as [|x r Hx _ IH]; intros o ins Hins.
+  - cbn [dag_items d_rows d_outs d_pend length]. rewrite Nat.add_0_r, app_nil_r. split; [|exact Hins].
+    intros j r Hj. destruct j; discriminate.
+  - cbn [dag_items d_rows d_outs d_pend].
+    destruct (Hx o ins Hins) as (Hxt & Hxo). apply ids_below_app in Hxo. destruct Hxo as [Hxo Hxp].
+    destruct (IH (o + length (d_rows (dag x o ins)))%nat (d_outs (dag x o ins)) Hxo) as (Hrt & Hro).
+    apply ids_below_app in Hro. destruct Hro as [Hro Hrp].
+    rewrite app_length, Nat.add_assoc. split.
+    + apply topo_app; assumption.
+    + apply ids_below_app. split; [exact Hro|]. apply ids_below_app. split; [|exact Hrp].
+      eapply ids_below_mono; [|exact Hxp]. lia.
+Qed.
+
+Theorem dag_topo : forall t, dag_topo_at t.
+Proof.
+  induction t as [l|l c IH|items w IH|items e IH] using tree_ind'; intros o ins Hins.
+  - cbn [dag d_rows d_outs d_pend length]. split; [apply topo_one; exact Hins|].
+    rewrite app_nil_r. apply ids_below_one. lia.
+  - cbn [dag d_rows d_outs d_pend length].
+    destruct (IH (S o) [(o, ECreate)]) as (Hc & Hco); [apply ids_below_one; lia|].
+    split; [apply topo_cons; [exact Hins|exact Hc]|].
+    apply ids_below_app. split; [apply ids_below_one; lia|].
+    eapply ids_below_mono; [|exact Hco]. lia.
+  - cbn [dag d_rows d_outs d_pend].
+    destruct (dag_items_topo items IH o ins Hins) as (Ht & Ho). apply ids_below_app in Ho. destruct Ho as [Ho Hp].
+    rewrite app_length; cbn [length]. split.
+    + apply topo_app; [exact Ht|]. apply topo_one. exact Ho.
+    + rewrite app_nil_r. intros p [<-|Hin]; cbn [fst]; [lia|]. specialize (Hp p Hin). lia.
+  - cbn [dag d_rows d_outs d_pend].
+    destruct (dag_items_topo items IH o ins Hins) as (Ht & Ho). apply ids_below_app in Ho. destruct Ho as [Ho Hp].
+    rewrite app_length; cbn [length]. split.
+    + apply topo_app; [exact Ht|]. apply topo_one. exact Ho.
+    + apply ids_below_app. split; [apply ids_below_one; lia|]. eapply ids_below_mono; [|exact Hp]. lia.
+Qed.
+
+Lemma dag_of_topo : forall t, topo 0 (dag_of t).
+Proof. intros t. apply (dag_topo t 0%nat []). intros p []. Qed.
+
+(** ** 5e. the DP on the explicit DAG follows the recursive accumulation *)
+Lemma serial_rec0_nonneg : forall oc items, Forall (fun x => nonnegl (leaves x)) items -> 0 <= serial (map (rec0 oc) items).
+Proof.
+  intros oc items H. induction H as [|x r Hx _ IH]; [unfold serial; cbn; lia|].
+  unfold serial in *. cbn [map]. rewrite zsum_cons. pose proof (Ti_nonneg oc x Hx). unfold Ti in *. lia.
+Qed.
+
+Lemma nth_app_nonneg : forall (acc vals : list Z) i, (forall z, In z vals -> 0 <= z) -> (length acc <= i)%nat ->
+  0 <= nth i (acc ++ vals) 0.
+Proof.
+  intros acc vals i H Hi. rewrite app_nth2 by lia.
+  destruct (Nat.lt_ge_cases (i - length acc) (length vals)) as [Hlt|Hge].
+  - apply H, nth_In, Hlt.
+  - rewrite nth_overflow by lia. lia.
+Qed.
+
+Lemma look_middle : forall (acc vals : list Z) v k, look (acc ++ v :: vals) (length acc, k) = v.
+Proof. intros. unfold look. cbn [fst]. apply nth_middle. Qed.
+
+Definition dp_ok (oc : bool) (t : tree) : Prop :=
+  forall c, wf c t = true -> nonnegl (leaves t) ->
+  forall acc ins, ids_below (length acc) ins ->
+    exists vals,
+      dp acc (d_rows (dag t (length acc) ins)) = acc ++ vals /\
+      length vals = length (d_rows (dag t (length acc) ins)) /\
+      (forall z, In z vals -> 0 <= z) /\
+      max0 (map (look (acc ++ vals)) (d_outs (dag t (length acc) ins))) = max0 (map (look acc) ins) + Ti oc t /\
+      map (look (acc ++ vals)) (d_pend (dag t (length acc) ins)) =
+        (match t with Create _ _ => [max0 (map (look acc) ins) + Hm oc t] | _ => [] end) /\
+      (forall z, In z vals ->
+         z <= max0 (map (look (acc ++ vals)) (d_outs (dag t (length acc) ins) ++ d_pend (dag t (length acc) ins)))).
+
+Lemma dp_items : forall oc c items,
+  Forall (dp_ok oc) items -> Forall (fun x => wf c x = true) items -> Forall (fun x => nonnegl (leaves x)) items ->
+  forall acc ins, ids_below (length acc) ins ->
+    exists vals,
+      dp acc (d_rows (dag_items dag items (length acc) ins)) = acc ++ vals /\
+      length vals = length (d_rows (dag_items dag items (length acc) ins)) /\
+      (forall z, In z vals -> 0 <= z) /\
+      max0 (map (look (acc ++ vals)) (d_outs (dag_items dag items (length acc) ins))) =
+        max0 (map (look acc) ins) + serial (map (rec0 oc) items) /\
+      map (look (acc ++ vals)) (d_pend (dag_items dag items (length acc) ins)) =
+        map (Z.add (max0 (map (look acc) ins))) (pendl 0 (map (rec0 oc) items)) /\
+      (forall z, In z vals ->
+         z <= max0 (map (look (acc ++ vals))
+                        (d_outs (dag_items dag items (length acc) ins) ++ d_pend (dag_items dag items (length acc) ins)))).
+Proof.
+  intros oc c items Hok. induction Hok as [|x r Hx _ IH]; intros Hwf Hnn acc ins Hins.
+  - exists []. cbn [dag_items d_rows d_outs d_pend dp map pendl length]. rewrite app_nil_r.
+    unfold serial; cbn [map zsum fold_right]. repeat split; try (intros z []). lia.
+  - inversion Hwf as [|? ? Hwx Hwr]; subst. inversion Hnn as [|? ? Hnx Hnr]; subst.
+    destruct (Hx c Hwx Hnx acc ins Hins) as (va & A1 & A2 & A3 & A4 & A5 & A6).
+    destruct (dag_topo x (length acc) ins Hins) as (_ & Hids). rewrite <- A2 in Hids.
+    apply ids_below_app in Hids. destruct Hids as [Hido Hidp].
+    assert (Hlen' : length (acc ++ va) = (length acc + length (d_rows (dag x (length acc) ins)))%nat)
+      by (rewrite app_length, A2; reflexivity).
+    rewrite <- app_length in Hido, Hidp.
+    destruct (IH Hwr Hnr (acc ++ va) (d_outs (dag x (length acc) ins)) Hido) as (vb & B1 & B2 & B3 & B4 & B5 & B6).
+    rewrite Hlen' in B1, B2, B4, B5, B6.
+    set (ra := dag x (length acc) ins) in *.
+    set (rb := dag_items dag r (length acc + length (d_rows ra)) (d_outs ra)) in *.
+    pose proof (serial_rec0_nonneg oc r Hnr) as Hser.
+    exists (va ++ vb). cbn [dag_items d_rows d_outs d_pend]. fold ra. fold rb.
+    rewrite app_assoc.
+    assert (Hpa : map (look ((acc ++ va) ++ vb)) (d_pend ra) = map (look (acc ++ va)) (d_pend ra))
+      by (apply map_look_app_l; exact Hidp).
+    assert (Hoa : map (look ((acc ++ va) ++ vb)) (d_outs ra) = map (look (acc ++ va)) (d_outs ra))
+      by (apply map_look_app_l; exact Hido).
+    split; [rewrite dp_app, A1; exact B1|].
+    split; [rewrite !app_length; lia|].
+    split; [intros z Hz; apply in_app_or in Hz; destruct Hz; [apply A3|apply B3]; assumption|].
+    split.
+    { rewrite B4, A4. unfold serial; cbn [map]. rewrite zsum_cons. unfold Ti. lia. }
+    split.
+    { rewrite map_app, Hpa, A5, B5, A4. cbn [map pendl]. rewrite map_app.
+      rewrite (pendl_shift (map (rec0 oc) r) (0 + tin (rec0 oc x))), map_map.
+      f_equal.
+      - destruct x; cbn [rec0 map]; try reflexivity. f_equal. unfold Hm, Ti, tin; cbn [rec0 ninfo leaf_info i_tinf]. lia.
+      - apply map_ext. intros z. unfold Ti. lia. }
+    intros z Hz. rewrite !map_app, !max0_app, Hpa.
+    pose proof (max0_nonneg (map (look ((acc ++ va) ++ vb)) (d_pend rb))) as Hp0.
+    apply in_app_or in Hz. destruct Hz as [Hz|Hz].
+    + specialize (A6 z Hz). rewrite map_app, max0_app, A4 in A6. rewrite B4, A4. lia.
+    + specialize (B6 z Hz). rewrite map_app, max0_app in B6. lia.
+Qed.
+
+Lemma pendl_task_items : forall oc items s, Forall (fun x => wf CTask x = true) items -> pendl s (map (rec0 oc) items) = [].
+Proof.
+  intros oc items s H; revert s. induction H as [|x r Hx _ IH]; intros s; [reflexivity|].
+  cbn [map pendl]. rewrite IH. destruct (wf_task_item _ Hx) as [(l & ->)|(it & w & -> & _)]; reflexivity.
+Qed.
+
+Theorem dag_dp_ok : forall oc t, dp_ok oc t.
+Proof.
+  intros oc t. induction t as [l|l ch IH|items w IH|items e IH] using tree_ind'; intros c Hwf Hnn acc ins Hins.
+  - (* other *)
+    inversion Hnn as [|? ? Hl _]; subst. cbn [snd] in Hl.
+    pose proof (max0_nonneg (map (look acc) ins)) as Hb.
+    set (b := max0 (map (look acc) ins)) in *.
+    exists [llen l + b]. cbn [dag d_rows d_outs d_pend dp r_leaf r_preds length map app].
+    rewrite look_middle. fold b.
+    repeat split.
+    + intros z [<-|[]]. lia.
+    + rewrite max0_cons. change (max0 []) with 0. unfold Ti, tin; cbn. lia.
+    + intros z [<-|[]]. rewrite max0_cons. lia.
+  - (* create *)
+    destruct c; cbn in Hwf; try discriminate.
+    change (leaves (Create l ch)) with ([(KCreate, l)] ++ leaves ch) in Hnn.
+    apply nonnegl_app in Hnn. destruct Hnn as [Hl Hc]. inversion Hl as [|? ? Hl' _]; subst. cbn [snd] in Hl'.
+    pose proof (max0_nonneg (map (look acc) ins)) as Hb.
+    set (b := max0 (map (look acc) ins)) in *.
+    set (v := llen l + b).
+    assert (Hins' : ids_below (length (acc ++ [v])) [(length acc, ECreate)])
+      by (apply ids_below_one; rewrite app_length; cbn; lia).
+    destruct (IH CChild Hwf Hc (acc ++ [v]) [(length acc, ECreate)] Hins') as (vc & C1 & C2 & C3 & C4 & C5 & C6).
+    assert (Hlen' : length (acc ++ [v]) = S (length acc)) by (rewrite app_length; cbn; lia).
+    rewrite Hlen' in C1, C2, C4, C5, C6.
+    cbn [map] in C4. rewrite look_middle in C4. rewrite max0_cons in C4. change (max0 []) with 0 in C4.
+    destruct (wf_child_task _ Hwf) as (items & e & Ech).
+    rewrite <- app_assoc in C1, C3, C4, C5, C6. cbn [app] in C1, C4, C5, C6.
+    exists (v :: vc). cbn [dag d_rows d_outs d_pend dp r_leaf r_preds length]. fold b. fold v.
+    set (rc := dag ch (S (length acc)) [(length acc, ECreate)]) in *.
+    assert (Hv : 0 <= v) by (unfold v; lia).
+    assert (HTi : Ti oc (Create l ch) = llen l) by (unfold Ti, tin; reflexivity).
+    assert (Hpc : map (look (acc ++ v :: vc)) (d_pend rc) = []) by (rewrite C5, Ech; reflexivity).
+    (* the single out-edge of the child task carries its critical path *)
+    assert (Hoc : map (look (acc ++ v :: vc)) (d_outs rc) = [v + Ti oc ch]).
+    { subst rc. rewrite Ech in *. cbn [dag d_outs] in *. cbn [map] in *.
+      rewrite max0_cons in C4. change (max0 []) with 0 in C4.
+      f_equal.
+      match goal with |- look ?L ?p = _ =>
+        assert (0 <= look L p) by (unfold look; change (acc ++ v :: vc) with (acc ++ [v] ++ vc);
+                                    rewrite app_assoc; apply nth_app_nonneg; [exact C3|rewrite app_length; cbn; lia])
+      end.
+      lia. }
+    split; [exact C1|]. split; [cbn [length]; lia|].
+    split; [intros z [<-|Hz]; [exact Hv|apply C3; exact Hz]|].
+    split; [cbn [map]; rewrite look_middle, max0_cons; change (max0 []) with 0; rewrite HTi; unfold v; lia|].
+    split; [rewrite map_app, Hoc, Hpc; cbn [app Hm]; f_equal; unfold v; lia|].
+    intros z [<-|Hz].
+    + cbn [map app]. rewrite look_middle, max0_cons. lia.
+    + specialize (C6 z Hz). cbn [map app]. rewrite max0_cons. lia.
+  - (* section *)
+    assert (Hit : Forall (fun x => wf CSect x = true) items)
+      by (destruct c; cbn in Hwf; try discriminate; apply wf_forall; exact Hwf).
+    cbn [leaves] in Hnn. apply nonnegl_app in Hnn. destruct Hnn as [Hi Hw].
+    apply nonnegl_flat in Hi. inversion Hw as [|? ? Hw' _]; subst. cbn [snd] in Hw'.
+    destruct (dp_items oc CSect items IH Hit Hi acc ins Hins) as (vi & I1 & I2 & I3 & I4 & I5 & I6).
+    destruct (dag_items_topo items (Forall_forall _ _ |> proj2 <| (fun x _ => dag_topo x)) (length acc) ins Hins) as (_ & Hids).
+    rewrite <- I2, <- app_length in Hids. apply ids_below_app in Hids. destruct Hids as [Hido Hidp].
+    pose proof (max0_nonneg (map (look acc) ins)) as Hb.
+    pose proof (serial_rec0_nonneg oc items Hi) as Hser.
+    set (b := max0 (map (look acc) ins)) in *.
+    set (ri := dag_items dag items (length acc) ins) in *.
+    set (ns := map (rec0 oc) items) in *.
+    set (vw := llen w + (b + serial ns)).
+    exists (vi ++ [vw]). cbn [dag d_rows d_outs d_pend]. fold ri.
+    assert (Hdp : dp acc (d_rows ri ++ [mkRow KWait w (d_outs ri)]) = acc ++ vi ++ [vw]).
+    { rewrite dp_app, I1. cbn [dp r_leaf r_preds]. rewrite I4, <- app_assoc. reflexivity. }
+    assert (Hwid : look (acc ++ vi ++ [vw]) ((length acc + length (d_rows ri))%nat, EWaitCont) = vw).
+    { rewrite <- I2, <- app_length, app_assoc. apply look_middle. }
+    assert (Hpi : map (look (acc ++ vi ++ [vw])) (d_pend ri) = map (Z.add b) (pendl 0 ns)).
+    { rewrite app_assoc, map_look_app_l by exact Hidp. exact I5. }
+    assert (HTi : Ti oc (Sect items w) = Z.max (max0 (pendl 0 ns)) (serial ns + llen w)).
+    { unfold Ti, tin. cbn [rec0 ninfo]. rewrite accumulate_tinf. fold ns.
+      rewrite pendl_app, serial_app. cbn [pendl]. rewrite app_nil_r. unfold serial at 2; cbn. f_equal. unfold tin; cbn. lia. }
+    split; [exact Hdp|]. split; [rewrite !app_length; cbn; lia|].
+    split; [intros z Hz; apply in_app_or in Hz; destruct Hz as [Hz|[<-|[]]]; [apply I3; exact Hz|unfold vw; lia]|].
+    split.
+    { cbn [map]. rewrite Hwid, Hpi, max0_cons, HTi. unfold vw.
+      replace (llen w + (b + serial ns)) with (b + (serial ns + llen w)) by lia.
+      rewrite max0_shift by lia. lia. }
+    split; [reflexivity|].
+    intros z Hz. rewrite app_nil_r. cbn [map]. rewrite Hwid, Hpi, max0_cons.
+    apply in_app_or in Hz. destruct Hz as [Hz|[<-|[]]]; [|lia].
+    specialize (I6 z Hz). rewrite map_app, max0_app, I4, I5 in I6. unfold vw. lia.
+  - (* task *)
+    assert (Hit : Forall (fun x => wf CTask x = true) items)
+      by (destruct c; cbn in Hwf; try discriminate; apply wf_forall; exact Hwf).
+    cbn [leaves] in Hnn. apply nonnegl_app in Hnn. destruct Hnn as [Hi Hw].
+    apply nonnegl_flat in Hi. inversion Hw as [|? ? Hw' _]; subst. cbn [snd] in Hw'.
+    destruct (dp_items oc CTask items IH Hit Hi acc ins Hins) as (vi & I1 & I2 & I3 & I4 & I5 & I6).
+    rewrite (pendl_task_items oc items 0 Hit) in I5. cbn [map] in I5.
+    pose proof (max0_nonneg (map (look acc) ins)) as Hb.
+    pose proof (serial_rec0_nonneg oc items Hi) as Hser.
+    set (b := max0 (map (look acc) ins)) in *.
+    set (ri := dag_items dag items (length acc) ins) in *.
+    set (ns := map (rec0 oc) items) in *.
+    set (ve := llen e + (b + serial ns)).
+    exists (vi ++ [ve]). cbn [dag d_rows d_outs d_pend]. fold ri.
+    assert (Hdp : dp acc (d_rows ri ++ [mkRow KEnd e (d_outs ri)]) = acc ++ vi ++ [ve]).
+    { rewrite dp_app, I1. cbn [dp r_leaf r_preds]. rewrite I4, <- app_assoc. reflexivity. }
+    assert (Heid : look (acc ++ vi ++ [ve]) ((length acc + length (d_rows ri))%nat, EEnd) = ve).
+    { rewrite <- I2, <- app_length, app_assoc. apply look_middle. }
+    assert (Hpe : d_pend ri = []) by (apply dag_items_pend_nil; exact Hit).
+    assert (HTi : Ti oc (Task items e) = serial ns + llen e).
+    { unfold Ti, tin. cbn [rec0 ninfo]. rewrite accumulate_tinf. fold ns.
+      rewrite pendl_app, serial_app. unfold ns at 1. rewrite (pendl_task_items oc items 0 Hit). cbn [pendl app].
+      change (max0 []) with 0. unfold serial at 2; cbn. unfold tin; cbn. lia. }
+    split; [exact Hdp|]. split; [rewrite !app_length; cbn; lia|].
+    split; [intros z Hz; apply in_app_or in Hz; destruct Hz as [Hz|[<-|[]]]; [apply I3; exact Hz|unfold ve; lia]|].
+    split; [cbn [map]; rewrite Heid, max0_cons, HTi; change (max0 []) with 0; unfold ve; lia|].
+    split; [rewrite Hpe; reflexivity|].
+    intros z Hz. rewrite Hpe, app_nil_r. cbn [map]. rewrite Heid, max0_cons.
+    apply in_app_or in Hz. destruct Hz as [Hz|[<-|[]]]; [|lia].
+    specialize (I6 z Hz). rewrite Hpe, app_nil_r, I4 in I6. unfold ve. lia.
+Qed.
